@@ -15,6 +15,7 @@ import Ptk.Props.C19Sgr
 import Ptk.Props.C19Depth
 import Ptk.Props.C19Style
 import Ptk.Props.C19Valid
+import Ptk.Props.C19Merge
 namespace Ptk.C19
 open Ptk.Py
 
@@ -146,6 +147,47 @@ example : (query G gsp grsp [some (sampleSheet.take 1), none, some (sampleSheet.
     (query G gsp grsp [some sampleSheet] "class:a.x,b".toList G.defaultAttrs).toOption.isSome = true := by
   decide +kernel
 example : (compileEach G gsp grsp ([some (sampleSheet.take 1), none, some (sampleSheet.drop 1)].filterMap id)).toOption.isSome = true := by
+  decide +kernel
+
+/-- **C19-d' (merging is pure).**  In any session of merges / queries / re-queries over SHARED sheet
+    objects (rule lists modelled by identity, `list.extend` in place), every sheet's own rule list
+    is unchanged afterwards, and each merged query is the cascade over the concatenation of the
+    CURRENT rule lists of its constituents — so using a sheet first in one merge cannot leak rules
+    into a later merge or into the sheet itself. -/
+theorem merging_is_pure (ops : List SessOp) (h : Heap) (hops : ∀ op ∈ ops, OpOk h.lists.length op)
+    (parts : List (Option Nat)) (hparts : ∀ s ∈ parts.filterMap id, s < h.lists.length)
+    (s : Text) (d : Attrs) :
+    let h' := ops.foldl (sessStep G gsp grsp) h
+    (∀ r < h.lists.length, h'.get r = h.get r) ∧
+    (mergedQuery G gsp grsp h' parts s d).2 =
+      match mergedRules G gsp grsp (parts.map (Option.map h.get)) with
+      | .error e => .error e
+      | .ok rules => match getAttrs G gsp rules s d with
+        | some a => .ok a
+        | none => .error .value := by
+  obtain ⟨hlen, hsame⟩ := session_pure G gsp grsp ops h hops
+  refine ⟨hsame, ?_⟩
+  have hparts' : ∀ s ∈ parts.filterMap id, s < (ops.foldl (sessStep G gsp grsp) h).lists.length :=
+    fun t ht => Nat.lt_of_lt_of_le (hparts t ht) hlen
+  rw [(mergedQuery_spec G gsp grsp _ parts hparts' s d).2.2]
+  have : parts.map (Option.map (ops.foldl (sessStep G gsp grsp) h).get) = parts.map (Option.map h.get) := by
+    apply List.map_congr_left
+    intro p hp
+    cases p with
+    | none => rfl
+    | some r =>
+      simp only [Option.map_some]
+      rw [hsame r (hparts r (List.mem_filterMap.mpr ⟨some r, hp, rfl⟩))]
+  rw [this]
+  rfl
+
+/-- non-vacuity (the seeded scenario): sheet 0 first in merge [0,1], then in merge [0,2]: the second
+    merge has exactly the rules of sheets 0 and 2, and sheet 0 still has its own two rules -/
+example :
+    let h : Heap := { lists := [sampleSheet.take 2, sampleSheet.drop 3, sampleSheet.drop 2 |>.take 1] }
+    let h1 := sessStep G gsp grsp h (.queryMerged [some 0, some 1] "class:a".toList G.defaultAttrs)
+    let r := mergedStyleRules h1 [some 0, none, some 2]
+    r.1.get r.2 = sampleSheet.take 3 ∧ r.1.get 0 = sampleSheet.take 2 ∧ h1.lists.length = 4 := by
   decide +kernel
 
 /-! ## 2. nearest colours -/
